@@ -92,6 +92,12 @@ CELER_FUNCTION size_type UniformGrid::find(value_type value) const
 {
     CELER_EXPECT(value >= this->front() && value < this->back());
     auto bin = static_cast<size_type>((value - data_.front) / data_.delta);
+    if (CELER_UNLIKELY(bin + 1 >= data_.size))
+    {
+        // Roundoff in the division can map a value just below back() onto the
+        // final grid point: the containing bin is then the last one
+        bin = data_.size - 2;
+    }
     CELER_ENSURE(bin + 1 < this->size());
     return bin;
 }
